@@ -21,10 +21,15 @@ COQ_STAGES = [
     ["C42/CWrapTable.v"],
 ]
 OBLIGATIONS = [
-    "C42/P_no_escape.v", "C42/P_cwrap_total.v", "C42/P_cwrap_agrees.v", "C42/P_error_atomic.v",
-    "C42/P_vec_laws.v", "C42/P_set_laws.v", "C42/P_map_laws.v", "C42/P_state_inv.v",
-    "C42/P_expression_ops.v", "C42/P_hand_model_current.v", "C42/P_nonvacuous.v",
+    "C42/P_no_escape.v", "C42/P_run_no_escape.v", "C42/P_cwrap_total_guarded.v", "C42/P_cwrap_total_refuted.v",
+    "C42/P_table_no_escape.v", "C42/P_cwrap_agrees_guarded.v", "C42/P_cwrap_agrees_refuted.v", "C42/P_cwrap_agrees_sem.v",
+    "C42/P_wrapped_outcome.v", "C42/P_error_atomic.v", "C42/P_vec_laws.v", "C42/P_vec_out_of_range_refuted.v",
+    "C42/P_set_laws.v", "C42/P_set_get_refuted.v", "C42/P_map_laws.v", "C42/P_state_inv.v", "C42/P_expression_ops.v",
+    "C42/P_hand_model_current.v", "C42/P_nonvacuous.v",
 ]
+# functions exercised by the driver's oracle only (their bodies are not a single forwarded expression and the model does
+# not transcribe them)
+DRIVER_ONLY = {"basic_dumps"}
 
 
 def hx(s):
@@ -443,6 +448,18 @@ CORPUS = [
     J("integer_set_si b0 i:3", "setbasic_insert s0 b0", "setbasic_get s0 i:1 b1"),
     J("symbol_set b0 " + T("x"), "symbol_set b1 " + T("y"), "vecbasic_push_back v0 b0", "vecbasic_push_back v1 b1",
       "lambda_real_double_visitor_init L v0 v0 i:0", "lambda_real_double_visitor_init L v0 v1 i:0"),
+    J("basic_set_complexes b0", "basic_dumps b0"),
+    J("symbol_set b0 " + T("x"), "basic_dumps b0", "basic_set_reals b1", "basic_dumps b1", "basic_parse b2 " + T("f(x) + 1/2"), "basic_dumps b2"),
+] + [
+    J("integer_set_si b0 i:1", "integer_set_si b1 i:2", "basic_set_interval b2 b0 b1 i:0 i:1", "symbol_set b3 " + T("x"),
+      "setbasic_insert s0 b3", "basic_set_finiteset b4 s0", "basic_set_union b5 b2 b4", "symbol_set b3 " + T("y"),
+      "setbasic_insert s1 b3", "basic_set_finiteset b4 s1", call)
+    for call in ["basic_set_is_subset b4 b5", "basic_set_is_proper_subset b4 b5", "basic_set_is_superset b5 b4",
+                 "basic_set_is_proper_superset b5 b4", "basic_set_is_subset b4 b2", "basic_set_is_superset b2 b4"]
+] + [
+    J("integer_set_si b0 i:1", "integer_set_si b1 i:2", "basic_set_interval b2 b0 b1 i:0 i:1", "symbol_set b3 " + T("x"),
+      "setbasic_insert s0 b3", "basic_set_finiteset b4 s0", "basic_set_union b5 b2 b4", "basic_set_reals b0",
+      "basic_set_is_subset b0 b5"),
     J("rational_set_si b0 i:1 i:0"),
     J("rational_set_ui b0 i:1 i:0"),
     J("integer_set_si b0 i:5", "integer_set_si b1 i:0", "ntheory_mod b2 b0 b1"),
@@ -561,6 +578,9 @@ def explore(ctx, drv, model, cases, search=False, stats=None):
             ctx.broken.append({"kind": "correspondence", "name": "C42 driver rejects a case", "detail": c + "\n" + canon[-300:]})
             continue
         if m is None:
+            continue
+        if any(call.split()[0] in DRIVER_ONLY for call in c.split(" ; ")):
+            ctx.cov["traces_validated_against_impl"] += 1     # by the driver's oracle only
             continue
         if m.startswith("UNSUPPORTED"):
             ctx.notes.append("model cannot read a dump: " + m) if len(ctx.notes) < 5 else None
